@@ -96,6 +96,10 @@ pub fn shift_l(left: &BigInt, right: &BigInt, field: &BigInt) -> Result<BigInt, 
     let top = field / &two;
     if right <= &top {
         let usize_repr = right.to_usize().ok_or(ArithmeticError::DivisionByZero)?;
+        // Shifting by at least the bit size of the field clears every bit under the mask.
+        if usize_repr >= bit_representation(field).1.len() {
+            return Ok(BigInt::from(0));
+        }
         let value = modulus(&((left * &num_traits::pow(two, usize_repr)) & &mask(field)), field);
         Ok(value)
     } else {
@@ -107,6 +111,10 @@ pub fn shift_r(left: &BigInt, right: &BigInt, field: &BigInt) -> Result<BigInt, 
     let top = field / &two;
     if right <= &top {
         let usize_repr = right.to_usize().ok_or(ArithmeticError::DivisionByZero)?;
+        // Shifting a field element by at least the bit size of the field leaves nothing.
+        if usize_repr >= bit_representation(field).1.len() {
+            return Ok(BigInt::from(0));
+        }
         let value = left / &num_traits::pow(two, usize_repr);
         Ok(value)
     } else {
